@@ -154,9 +154,13 @@ func (s *Server) writeAOF(args []string, d *commandDetails) error {
 	}
 
 	if s.shrinking {
-		nargs := make([]string, len(args))
-		copy(nargs, args)
-		s.shrinklog = append(s.shrinklog, nargs)
+		if d != nil && d.command == "rename" {
+			s.shrinklog = append(s.shrinklog, s.shrinkRenameCommands(d)...)
+		} else {
+			nargs := make([]string, len(args))
+			copy(nargs, args)
+			s.shrinklog = append(s.shrinklog, nargs)
+		}
 	}
 
 	if s.aof != nil {
